@@ -38,6 +38,9 @@ func c06Step(c *vh.Ctx, spec *core.Spec, cs stepCase) {
 	c.Eval()
 	refs := cs.Spec.Step(cs.Node, cs.Bs, cs.Pending)
 	sit := situation(cs, refs)
+	if cs.Setup == "uncompiled" || cs.Setup == "late-source" {
+		sit = cs.Setup // the reference rule speaks about compiled specifications only
+	}
 	run := func() (string, []string) {
 		st := &core.State{NodeName: cs.Node, Bs: match.Bindings(cloneM(cs.Bs))}
 		pending := clone(cs.Pending)
@@ -72,6 +75,12 @@ func c06Step(c *vh.Ctx, spec *core.Spec, cs stepCase) {
 		c.Nontrivial()
 	}
 	for _, b := range bad {
+		if b == "spec-modified" {
+			// a specification that was written to is not the same input any more: reproduce on a new one
+			if s2, err := c04Build(cs.Spec, cs.Setup); err == nil {
+				spec = s2
+			}
+		}
 		_, bad2 := run()
 		rep := false
 		for _, x := range bad2 {
@@ -95,6 +104,23 @@ func c06Step(c *vh.Ctx, spec *core.Spec, cs stepCase) {
 			c.Violation("C06/step/repeat-differs/"+sit, fmt.Sprintf("two identical Step calls gave %s and %s", k1, k2), cs)
 		}
 	}
+}
+
+// c06HasSource: node n0 has an ECMAScript action or guard.
+func c06HasSource(as *rstep.ASpec) bool {
+	n := as.Nodes["n0"]
+	if n == nil {
+		return false
+	}
+	if n.Action != nil && !n.Action.Native {
+		return true
+	}
+	for _, b := range n.Branches {
+		if b.Guard != nil && !b.Guard.Native {
+			return true
+		}
+	}
+	return false
 }
 
 func keyOf(b string) string {
@@ -217,17 +243,31 @@ func C06(c *vh.Ctx) {
 		}
 		var cs stepCase
 		c.LoadReplay(&cs)
-		if spec, err := cs.Spec.Build(); err == nil {
+		if spec, err := c04Build(cs.Spec, cs.Setup); err == nil {
 			c06Step(c, spec, cs)
 		}
 		return
 	}
-	c.Rule("the C04 step space (quick vocabulary; in the quick tier every twenty-ninth two-branch list) and the C05 walk space (quick templates; in the quick tier every sixth spec, sequences up to the bound, limits {0,2,100}, breakpoints; plus message slices with nil entries) re-executed with deep snapshots (reflect, incl. unexported fields) of state, messages, spec, control and props before/after each call, map-identity checks on every returned state, and two identical calls compared; plus a retry family: ECMAScript actions and guards that try to remember something outside their result (globals, built-in prototypes, members of the built-in objects, the properties object, also before failing) are walked several times with equal inputs, for one machine and for many machines in turn, with nil / empty / populated step properties - every attempt must give the result of the first; non-trivial = the step/walk did something other than stay / finish normally.")
+	c.Rule("the C04 step space (quick vocabulary; in the quick tier every twenty-ninth two-branch list) and the C05 walk space (quick templates; in the quick tier every sixth spec, sequences up to the bound, limits {0,2,100}, breakpoints; plus message slices with nil entries) re-executed with deep snapshots (reflect, incl. unexported fields) of state, messages, spec, control and props before/after each call, map-identity checks on every returned state, and two identical calls compared (ECMAScript nodes also in a specification that was never compiled and in one whose sources arrived after Compile); plus a retry family: ECMAScript actions and guards that try to remember something outside their result (globals, built-in prototypes, members of the built-in objects, the properties object, also before failing) are walked several times with equal inputs, for one machine and for many machines in turn, with nil / empty / populated step properties - every attempt must give the result of the first; non-trivial = the step/walk did something other than stay / finish normally.")
 	forEachStepCase(c, false, func(spec *core.Spec, cs stepCase, li int) {
 		if c.Quick() && len(cs.Spec.Nodes["n0"].Branches) == 2 && li%29 != 0 {
 			return // quick: no / single-branch lists in full, every twenty-ninth two-branch list
 		}
+		if c.Quick() && cs.Setup != "" && li >= 0 && li%29 != 0 {
+			return // quick: differently prepared specification objects for every twenty-ninth list
+		}
 		c06Step(c, spec, cs)
+		if cs.Setup == "" && c06HasSource(cs.Spec) && (li < 0 || li%29 == 0) {
+			// the same node in a specification that was never compiled, or whose sources arrived after
+			// Compile: whatever Step makes of it (it refuses the action), it writes nothing into it
+			for _, setup := range []string{"uncompiled", "late-source"} {
+				if s2, err := c04Build(cs.Spec, setup); err == nil {
+					cs2 := cs
+					cs2.Setup = setup
+					c06Step(c, s2, cs2)
+				}
+			}
+		}
 		if c.WantSample() && li == 77 && cs.Spec.Nodes["n0"].Action != nil {
 			c.Sample(cs)
 		}
